@@ -7,6 +7,11 @@
 // Op:  pipe <coarsening> <relaxation> <solver> <coarse_enough> <max_levels> <direct_coarse> <npre> <npost> <ncycle> <maxiter> A f
 //      papply <class 0 amg|1 relaxation|2 dummy> <coarsening> <relaxation> <coarse_enough> <max_levels> <direct_coarse> A f
 //             (preconditioner.apply(rhs, x) with the OUTPUT vector x allocated uninitialised, i.e. holding the fill pattern)
+//      pcomp <kind 0 cpr|1 cpr_drs|2 schur_pressure_correction|3 kernels> <block_size> A f
+//             composite preconditioners in double (spai0 / ilu0 inner preconditioners) constructed and applied to an
+//             uninitialised output vector; kind 3: backend::sum, pointwise_matrix, unblock_matrix, crs copy / assignment,
+//             numa_vector::resize — the arrays they return are compared across the fills
+// Every case is tagged with the keys of the uninitialised allocation sites (tools/alloc_sites.py) it ran through.
 // The values are small dyadic rationals, converted to double exactly.  Implementation-only harness (no model line).
 #include "poison.hpp"      // replaced operator new (fill patterns) + allocation-site tracker; must come first
 #include "gen.hpp"
@@ -18,6 +23,16 @@
 #include <amgcl/relaxation/runtime.hpp>
 #include <amgcl/preconditioner/runtime.hpp>
 #include <amgcl/adapter/crs_tuple.hpp>
+#include <amgcl/adapter/block_matrix.hpp>
+#include <amgcl/preconditioner/cpr.hpp>
+#include <amgcl/preconditioner/cpr_drs.hpp>
+#include <amgcl/preconditioner/schur_pressure_correction.hpp>
+#include <amgcl/relaxation/as_preconditioner.hpp>
+#include <amgcl/relaxation/spai0.hpp>
+#include <amgcl/relaxation/ilu0.hpp>
+#include <amgcl/solver/preonly.hpp>
+#include <amgcl/value_type/static_matrix.hpp>
+#include <amgcl/coarsening/tentative_prolongation.hpp>
 #include <boost/property_tree/ptree.hpp>
 using namespace vh;
 
@@ -90,6 +105,111 @@ static Out papply_once(const PCase &k, int fill_mode) {
     return o;
 }
 
+// ---------------------------------------------------------------- composites and kernels in double
+typedef amgcl::relaxation::as_preconditioner<Backend, amgcl::relaxation::spai0> PSpai;
+typedef amgcl::relaxation::as_preconditioner<Backend, amgcl::relaxation::ilu0> PIlu;
+typedef amgcl::preconditioner::cpr<PSpai, PIlu> CPR;
+typedef amgcl::preconditioner::cpr_drs<PSpai, PIlu> CPRDRS;
+typedef amgcl::make_solver<PIlu, amgcl::solver::preonly<Backend>> InnerS;
+typedef amgcl::preconditioner::schur_pressure_correction<InnerS, InnerS> SPC;
+typedef amgcl::static_matrix<double, 2, 2> BV2; typedef amgcl::static_matrix<double, 2, 1> BR2;
+typedef amgcl::backend::builtin<BV2> BBackend;
+typedef amgcl::relaxation::as_preconditioner<BBackend, amgcl::relaxation::spai0> PSpaiB;
+typedef amgcl::preconditioner::cpr<PSpai, PSpaiB> CPRB;
+typedef amgcl::preconditioner::cpr_drs<PSpai, PSpaiB> CPRDRSB;
+static const char *pcomps[] = { "cpr", "cpr_drs", "schur", "kernels", "cpr_block", "cpr_drs_block" };
+template <class P, class MA> static void block_cpr(Out &o, const MA &A, const std::vector<double> &rhs, long n) {
+    typename P::params prm;
+    auto Bm = amgcl::adapter::block_matrix<BV2>(A);
+    P pre(Bm, prm);
+    long nb = n / 2;
+    for (int round = 0; round < 2; ++round) {
+        amgcl::backend::numa_vector<BR2> F(nb), X(nb, false);      // output vector: never initialised
+        for (long i = 0; i < nb; ++i) { F[i](0) = rhs[2 * i]; F[i](1) = rhs[2 * i + 1]; }
+        pre.apply(F, X);
+        for (long i = 0; i < nb; ++i) { o.x.push_back(X[i](0)); o.x.push_back(X[i](1)); }
+        if (round == 0) pre.partial_update(Bm, true);
+    }
+}
+struct CCase { long kind, B; Mat A; std::vector<Q> f; };
+
+template <class M> static void dump_crs(std::vector<double> &o, const M &A) {
+    o.push_back((double)A.nrows); o.push_back((double)A.ncols);
+    for (size_t i = 0; i <= A.nrows; ++i) o.push_back((double)A.ptr[i]);
+    for (ptrdiff_t j = 0; j < (ptrdiff_t)A.ptr[A.nrows]; ++j) { o.push_back((double)A.col[j]); o.push_back(A.val[j]); }
+}
+template <class P> static void apply_raw(Out &o, const P &pre, const std::vector<double> &rhs, long n) {
+    double *xraw = new double[n ? n : 1];                        // output vector: never initialised by the caller
+    auto X = amgcl::make_iterator_range(xraw, xraw + n);
+    pre.apply(rhs, X);
+    o.x.assign(xraw, xraw + n); delete[] xraw;
+}
+static Out pcomp_once(const CCase &k, int fill_mode) {
+    Out o;
+    std::vector<ptrdiff_t> ptr(k.A.ptr), col(k.A.col); std::vector<double> val(k.A.val.size()), rhs(k.f.size());
+    for (size_t i = 0; i < val.size(); ++i) val[i] = k.A.val[i].v.get_d();
+    for (size_t i = 0; i < rhs.size(); ++i) rhs[i] = k.f[i].v.get_d();
+    vh_poison::mode = fill_mode; vh_poison::track = (fill_mode == 1);
+    struct Off { ~Off() { vh_poison::mode = -1; vh_poison::track = false; } } off_guard;
+    try {
+        auto A = std::tie(k.A.n, ptr, col, val);
+        if (k.kind == 0) { CPR::params prm; prm.block_size = (int)k.B; CPR P(A, prm); apply_raw(o, P, rhs, k.A.n);
+            Out o2; P.partial_update(A, true); apply_raw(o2, P, rhs, k.A.n); o.x.insert(o.x.end(), o2.x.begin(), o2.x.end()); }
+        else if (k.kind == 1) { CPRDRS::params prm; prm.block_size = (int)k.B; CPRDRS P(A, prm); apply_raw(o, P, rhs, k.A.n);
+            Out o2; P.partial_update(A, true); apply_raw(o2, P, rhs, k.A.n); o.x.insert(o.x.end(), o2.x.begin(), o2.x.end()); }
+        else if (k.kind == 4) block_cpr<CPRB>(o, A, rhs, k.A.n);
+        else if (k.kind == 5) block_cpr<CPRDRSB>(o, A, rhs, k.A.n);
+        else if (k.kind == 2) {
+            SPC::params prm; prm.pmask.assign(k.A.n, 0); for (long i = k.B - 1; i < k.A.n; i += k.B) prm.pmask[i] = 1;
+            SPC P(A, prm); apply_raw(o, P, rhs, k.A.n);
+        } else {
+            typedef amgcl::backend::crs<double> M;
+            M Ac(A);                                                        // crs(const Matrix&)
+            M Bc(Ac);                                                       // copy constructor
+            M Cc; Cc = Bc;                                                  // operator=
+            M Dc(Ac.nrows, Ac.ncols, ptr, col, val);                        // range constructor
+            auto S = amgcl::backend::sum(2.0, Ac, -0.5, *amgcl::backend::transpose(Dc), true);
+            dump_crs(o.x, Cc); dump_crs(o.x, *S);
+            if (k.A.n % k.B == 0) {
+                auto Pw = amgcl::backend::pointwise_matrix(Ac, (unsigned)k.B); dump_crs(o.x, *Pw);
+                if (k.B == 2) {
+                    typedef amgcl::static_matrix<double, 2, 2> BV;
+                    auto Bm = amgcl::adapter::block_matrix<BV>(A);
+                    amgcl::backend::crs<BV> Bcrs(Bm);
+                    auto U = amgcl::adapter::unblock_matrix(Bcrs); dump_crs(o.x, *U);
+                }
+            }
+            { M Rm; amgcl::backend::spgemm_rmerge(Ac, Dc, Rm); dump_crs(o.x, Rm); }      // row-merge product (normally > 16 threads only)
+            {   // tentative prolongation with near-null-space vectors (QR branch)
+                std::vector<ptrdiff_t> aggr(k.A.n); for (long i = 0; i < k.A.n; ++i) aggr[i] = (i % 5 == 4) ? -1 : i / 3;
+                long naggr = (k.A.n + 2) / 3;
+                amgcl::coarsening::nullspace_params ns; ns.cols = 1; ns.B.assign(k.A.n, 1.0);
+                auto Pt = amgcl::coarsening::tentative_prolongation<M>((size_t)k.A.n, (size_t)naggr, aggr, ns, 1);
+                dump_crs(o.x, *Pt); for (double b : ns.B) o.x.push_back(b);
+            }
+            amgcl::backend::numa_vector<double> v(3);
+            v.resize((size_t)k.A.n, true); for (long i = 0; i < k.A.n; ++i) o.x.push_back(v[i]);
+            amgcl::backend::numa_vector<double> w(rhs.begin(), rhs.end()); for (long i = 0; i < k.A.n; ++i) o.x.push_back(w[i]);
+            o.x.push_back(amgcl::backend::spectral_radius<true>(Ac, 3)); o.x.push_back(amgcl::backend::spectral_radius<false>(Ac, 2));
+        }
+        o.tag = "ok";
+    } catch (const amgcl::error::empty_level&) { o.tag = "empty_level"; o.x.clear(); }
+    catch (const std::exception &e) { o.tag = "exception"; o.x.clear(); }
+    return o;
+}
+static Result execute_pcomp(const Toks &t) {
+    Cur c(t); CCase k; k.kind = c.nat(); k.B = c.nat(); k.A = c.mat(); k.f = c.vec(); c.expect_end();
+    std::string why; if (!crs_wf(*k.A.crs(), why) || k.A.n != k.A.m || (long)k.f.size() != k.A.n) throw bad_input("shape");
+    if (k.kind < 0 || k.kind > 5 || k.B < 1 || k.B > 4 || (k.kind != 3 && k.A.n % k.B) || (k.kind > 3 && k.B != 2)) throw bad_input("enum");
+    Result r; Out base = pcomp_once(k, 0);
+    for (int m = 1; m <= 3; ++m) { Out o = pcomp_once(k, m); if (!same(base, o)) { r.fail(std::string("result depends on heap contents: fill 0x00 vs ") + (m == 1 ? "0xFF" : m == 2 ? "0xAA" : "random") + " (" + pcomps[k.kind] + ")"); break; } }
+    { Out o = pcomp_once(k, 0); if (!same(base, o)) r.fail("second run in the same process differs (allocation history)"); }
+    Line l; l << base.tag; for (double d : base.x) l << hex(d);
+    r.out = l.get(); r.nontrivial = base.tag == "ok" && k.A.n > 1; r.tag("pcomp").tag(pcomps[k.kind]).tag(base.tag);
+    for (auto &key : vh_poison::sites_since_mark()) r.tag("site:" + key);
+    return r;
+}
+
 static Result execute_papply(const Toks &t) {
     Cur c(t); PCase k; k.cls = c.nat(); k.c = c.nat(); k.r = c.nat(); k.ce = c.nat(); k.ml = c.nat(); k.dc = c.nat(); k.A = c.mat(); k.f = c.vec(); c.expect_end();
     std::string why; if (!crs_wf(*k.A.crs(), why) || k.A.n != k.A.m || (long)k.f.size() != k.A.n) throw bad_input("shape");
@@ -104,6 +224,7 @@ static Result execute_papply(const Toks &t) {
 
 static Result execute(const Toks &t) {
     if (t[0] == "papply") return execute_papply(t);
+    if (t[0] == "pcomp") return execute_pcomp(t);
     Cur c(t); if (t[0] != "pipe") return Result("bad-op");
     Case k; k.c = c.nat(); k.r = c.nat(); k.s = c.nat(); k.ce = c.nat(); k.ml = c.nat(); k.dc = c.nat(); k.npre = c.nat(); k.npost = c.nat(); k.ncycle = c.nat(); k.maxiter = c.nat();
     k.A = c.mat(); k.f = c.vec(); c.expect_end();
@@ -160,6 +281,13 @@ static void generate(Rng &rng, const Opts &o, std::vector<std::string> &lines) {
         long n = rng.range(2, 20);
         Mat A = rng.coin(1, 5) ? gen_convdiff(rng, n) : dyadic_spd(rng, n, (int)rng.range(0, 3));
         Line l; l << "papply" << rng.range(0, 2) << rng.range(0, 3) << rng.range(0, 8) << rng.pick(ces) << rng.pick(mls) << rng.coin(3, 4) << A << gen_vec(rng, A.n, true);
+        lines.push_back(l.get());
+    }
+    // composites / kernels in double: every kind with every block size, on block-structured SPD matrices
+    for (long rep = 0; rep < (o.thorough() ? 12 : 2); ++rep) for (long kind = 0; kind <= 5; ++kind) for (long B = (kind == 3 ? 1 : 2); B <= (kind > 3 ? 2 : 3); ++B) {
+        long nb = rng.range(2, o.thorough() ? 12 : 6), n = nb * B;
+        Mat A = rng.coin(1, 4) ? gen_convdiff(rng, n) : dyadic_spd(rng, n, (int)rng.range(0, 3));
+        Line l; l << "pcomp" << kind << B << A << gen_vec(rng, n, true);
         lines.push_back(l.get());
     }
     lines.push_back("pipe 9 0 0 2 10 1 1 1 1 5 1 1 1 0 2 1 1");      // unknown coarsening index
